@@ -187,6 +187,9 @@ func Coord(r *core.Rand, span float64) float64 {
 }
 
 func seconds(r *core.Rand) int {
+	if r.Chance(1, 10) {
+		return core.Pick(r, []int{0, 0, 1, 59, 60, 3600, 86399, 86400, 86401, 359999})
+	}
 	h := 0
 	switch r.Intn(5) {
 	case 0:
